@@ -10,8 +10,11 @@ def run(ck):
     _tids = _gen.Tids(100000)
     mprogs = []
     mprogs += machine.run_machine(ck, "Z2", "abelian", "PoolZ2s", "OpsStruct", rank=2, depth=3, mod=40, tids=_tids)
+    mprogs += machine.run_machine(ck, "Z2", "abelian", "PoolZ2t", "OpsArith", rank=2, depth=3, mod=60, tids=_tids)
     if ck.tier != "quick":
         mprogs += machine.run_machine(ck, "U1", "abelian", "PoolU1s", "OpsStruct", rank=2, depth=3, mod=100, tids=_tids)
+        mprogs += machine.run_machine(ck, "U1", "abelian", "PoolU1s", "OpsArith", rank=2, depth=3, mod=300, tids=_tids)
+        mprogs += machine.run_machine(ck, "Z2", "fermionic", "PoolZ2s", "OpsAlgebra", rank=2, depth=3, mod=300, tids=_tids)
     ck.conform(mprogs)
     q = ck.tier == "quick"
     tids = gen.Tids()
